@@ -1,14 +1,16 @@
 """Registry of K rules (functions of one KCtx)."""
 
-from . import slices
+import importlib
 
 REGISTRY = {}
 
-
-def _reg(mod):
+for _m in ("slices", "flags", "c16", "own", "typing", "addr", "cover", "bounds"):
+    try:
+        mod = importlib.import_module(f"{__name__}.{_m}")
+    except ModuleNotFoundError as e:
+        if e.name != f"{__name__}.{_m}":
+            raise
+        continue
     for name in dir(mod):
         if name.startswith("rule_"):
-            REGISTRY[f"{mod.__name__.split('.')[-1]}.{name[5:]}"] = getattr(mod, name)
-
-
-_reg(slices)
+            REGISTRY[f"{_m}.{name[5:]}"] = getattr(mod, name)
